@@ -1,7 +1,8 @@
 (* coalesceIntervals (factstore/temporal.go:328): the set of instants is
    unchanged and the finite intervals of the result are pairwise at distance
-   >= 2, for every input whose finite intervals are valid and start after
-   MinInt64 (at MinInt64 Go's `Start-1` wraps: finding N13, refuted below). *)
+   >= 2, for every input whose finite intervals are valid and start within
+   int64 (MinInt64 included since fix N13: `Start-1` is only computed when it
+   cannot wrap; the test before the fix is refuted below). *)
 From Coq Require Import List ZArith Lia Bool Permutation Sorted.
 From MV Require Import Temporal.ITree Temporal.TStore.
 Import ListNotations.
@@ -47,23 +48,41 @@ Proof.
 Qed.
 
 (* ---- the merge loop on any sorted input *)
-Definition okp (p : Z * Z) := fst p <= snd p /\ minInt64 < fst p /\ fst p <= maxInt64.
+Definition okp (p : Z * Z) := fst p <= snd p /\ minInt64 <= fst p /\ fst p <= maxInt64.
+
+(* the repaired test never wraps: with a valid `cur` that starts within int64
+   it is the mathematical `x starts at most one past the end of cur` *)
+Lemma adjacent_spec cur x : minInt64 <= fst cur -> fst cur <= snd cur -> fst x <= maxInt64 ->
+  adjacent cur x = (fst x - 1 <=? snd cur).
+Proof.
+  intros Hlo Hv Hhi. unfold adjacent.
+  destruct (Z.leb_spec (fst x) (snd cur)) as [H|H]; cbn [orb].
+  - symmetry. apply Z.leb_le. lia.
+  - rewrite wrap64_id by (unfold int64, minInt64, maxInt64 in *; lia).
+    destruct (Z.eqb_spec (fst x - 1) (snd cur)); symmetry; [apply Z.leb_le|apply Z.leb_gt]; lia.
+Qed.
+
+Lemma merge_cons cur x rest : merge cur (x :: rest) =
+  if adjacent cur x then merge (fst cur, Z.max (snd cur) (snd x)) rest else cur :: merge x rest.
+Proof. reflexivity. Qed.
+Lemma merge_nil cur : merge cur [] = [cur].
+Proof. reflexivity. Qed.
 
 Lemma merge_cover rest : forall cur t,
-  StronglySorted le_start (cur :: rest) -> fst cur <= snd cur -> Forall okp rest ->
+  StronglySorted le_start (cur :: rest) -> minInt64 <= fst cur -> fst cur <= snd cur -> Forall okp rest ->
   (covered (merge cur rest) t <-> covered (cur :: rest) t).
 Proof.
-  induction rest as [|x rest IH]; intros cur t Hs Hc Hok; [reflexivity|].
+  induction rest as [|x rest IH]; intros cur t Hs Hlo Hc Hok; [reflexivity|].
   inversion Hs as [|? ? Hs' Hf]; subst. inversion Hf as [|? ? Hx Hf']; subst.
   inversion Hs' as [|? ? Hs'' Hfx]; subst.
   inversion Hok as [|? ? [Hxv [Hxlo Hxhi]] Hok']; subst.
-  cbn [merge]. rewrite wrap64_id by (unfold int64, minInt64, maxInt64 in *; lia).
+  rewrite merge_cons, (adjacent_spec cur x Hlo Hc Hxhi).
   unfold le_start in Hx.
   destruct (Z.leb_spec (fst x - 1) (snd cur)).
   - assert (S2 : StronglySorted le_start ((fst cur, Z.max (snd cur) (snd x)) :: rest)).
     { constructor; auto. }
     assert (V2 : fst (fst cur, Z.max (snd cur) (snd x)) <= snd (fst cur, Z.max (snd cur) (snd x))) by (cbn [fst snd]; lia).
-    rewrite (IH _ t S2 V2 Hok').
+    rewrite (IH _ t S2 Hlo V2 Hok').
     unfold covered. split.
     + intros (p & [<-|Hp] & Ht); cbn [fst snd] in *.
       * destruct (Z_le_gt_dec t (snd cur)).
